@@ -125,6 +125,15 @@ class SqliteConsumerPlugin(AbstractMessageBusConsumerPlugin):
                     raise IOError("Bus database seems invalid") from None
 
             if entry["minmsgid"] <= offset <= entry["nextmsgid"]:
+                if offset != entry["nextmsgid"]:
+                    # The event may have been purged from between younger ones (its
+                    # timestamp was older than theirs): ensure it still exists
+                    sql = "SELECT msgid FROM hermesmessages WHERE msgid = :offset"
+                    cur = self._db.execute(sql, {"offset": offset})
+                    if cur.fetchone() is None:
+                        raise IndexError(
+                            f"Specified offset '{offset}' doesn't exists in bus"
+                        ) from None
                 self.__curoffset = offset
             else:
                 raise IndexError(
